@@ -262,7 +262,8 @@ def writer_table(facts, d, src):
 
 
 EXPECT_WRITER = {'-nan': '-nan', 'nan': 'nan', '-0.0': '-0.0', '0.0': '0.0', '2.0': '{self}.0', '-2.0': '{self}.0', '1e20': '{self}.0', '1.5': '{self}',
-                 '-1.5': '{self}', '5e-324': '{self}', 'max': '{self}.0', '-max': '{self}.0', 'inf': '{self}', '-inf': '{self}'}
+                 '-1.5': '{self}', '5e-324': '{self}', 'max': '{self}.0', '-max': '{self}.0', 'inf': '{self}', '-inf': '{self}',
+                 '1+ulp': '{self}', '1000+ulp': '{self}', '2^52-0.5': '{self}', '1-ulp': '{self}', '-(1+ulp)': '{self}'}
 
 
 def r4_writers(rep, facts):
